@@ -66,7 +66,7 @@ def case_a(draw):
         m[tuple(sl)] = False
         mask = m.reshape(-1).tolist()
     return {"kind": "a", "shape": shape, "vals": vals, "axes": axes, "mask": mask,
-            "jit": draw(st.booleans()), "int_axis": draw(st.booleans()), "dtype": draw(st.sampled_from(["float", "float", "float", "int"]))}
+            "jit": draw(st.booleans()), "int_axis": draw(st.booleans()), "dtype": draw(st.sampled_from(["float", "float", "float", "int", "bigint"]))}
 
 
 EXPRS = [
@@ -144,6 +144,9 @@ def check_a(case):
     a = np.asarray(case["vals"], dtype=float).reshape(shape)
     if dt is int:
         a = np.round(a * 8).astype(np.int64)
+        if case["dtype"] == "bigint":
+            # integers beyond 2**53: neighbouring values are indistinguishable in float64
+            a = a + np.int64(2**60)
     axes = tuple(case["axes"])
     mask = None if case["mask"] is None else np.asarray(case["mask"], dtype=bool).reshape(shape)
     axis_arg = axes[0] if (len(axes) == 1 and case["int_axis"]) else axes
